@@ -14,7 +14,7 @@ from ..schedcase import Model, selection
 PID = "C18"
 LEVEL = "exploration"
 RULE = (
-    "cases = call-only DAG programs (3-8 sites, picklable values, optional DAG parameter) x caching run in {whole DAG, "
+    "cases = call-only DAG programs (3-8 sites, picklable values incl. functions returning None / falsy constants, optional DAG parameter) x caching run in {whole DAG, "
     "target_nodes=T, cache_deps_of=[n...]} writing cache_in to a temp file x restart run (a freshly built DAG) in "
     "{whole DAG, same selection, cache_deps_of again} with from_cache; half of the cases run a SECOND round that rewrites "
     "the same file path with other arguments / another selection and restarts from it again. oracle: caching run == reference; pickle keys "
@@ -150,7 +150,7 @@ def _round(case: Dict[str, Any], path: str) -> CaseResult:
 def cases(draw: Any, tier: str) -> Dict[str, Any]:
     npar = draw(st.integers(0, 1))
     P = draw(gen.flat_prog(min_sites=3, max_sites=8, max_deps=3, resources=gen.RES, dep_kinds=("pos", "kw"),
-                           n_params=npar, prio_range=(-1, 2)))
+                           n_params=npar, prio_range=(-1, 2), none_rate=0.2))
     sites = [s["site"] for s in P["body"]]
     case: Dict[str, Any] = {"prog": P, "mc": draw(st.integers(1, 3)), "args": [draw(st.sampled_from([0, 1, "a"])) for _ in range(npar)]}
     case["cache_mode"] = draw(st.sampled_from(["whole", "target", "target", "deps_of", "deps_of"]))
